@@ -342,7 +342,15 @@ impl<'a> Walker<'a> {
         }
         // long prefixes (pre-rolled games, C04): remember every observable before each prefix ply
         // so that the whole game can be unwound afterwards
-        let deep = self.cfg.flags & F04 != 0 && item.prefix.len() > 16;
+        let deep = self.cfg.flags & (F04 | F12 | F16) != 0 && item.prefix.len() > 16;
+        if item.prefix.len() > 64 {
+            // what is examined here depends on the HISTORY the board carries, not on the position: a
+            // generator that has already listed these positions (for a game of another length)
+            // would answer from its cache without touching the board
+            l.g = MoveGenerator::new();
+            l.ga = MoveGenerator::new();
+            l.n.add("generator_renewals", 2);
+        }
         let mut path: Vec<Move> = Vec::new();
         let r = self.node(l, &mut board, &pos, item.remaining, &mut path, item);
         if deep && r.is_ok() {
@@ -361,17 +369,49 @@ impl<'a> Walker<'a> {
                 match guarded(|| im.undo(&mut board)) {
                     Ok(Ok(())) => {}
                     other => {
-                        self.viol("C04", "undo-failed(long-game)", item, &[], format!("undoing ply {} of a {}-ply game: {:?}", k + 1, applied.len(), other.map(|r| r.map_err(|e| e.to_string()))));
+                        let d = format!("undoing ply {} of a {}-ply game: {:?}", k + 1, applied.len(), other.map(|r| r.map_err(|e| e.to_string())));
+                        for (fl, pr) in [(F04, "C04"), (F12, "C12"), (F16, "C16")] {
+                            if self.cfg.flags & fl != 0 {
+                                self.viol(pr, "undo-failed(long-game)", item, &[], d.clone());
+                            }
+                        }
                         return;
                     }
                 }
                 l.n.add("long_game_undo_comparisons", 1);
                 let now = snapshot(&board);
                 if now != snaps[k] {
-                    self.viol("C04", "undo-does-not-restore(long-game)", item, &[], format!("after undoing ply {} of a {}-ply game (and a depth-{} tree at its end): {}", k + 1, applied.len(), item.remaining, snaps[k].diff(&now)));
+                    let d = format!("after undoing ply {} of a {}-ply game (and a depth-{} tree at its end): {}", k + 1, applied.len(), item.remaining, snaps[k].diff(&now));
+                    if self.cfg.flags & F04 != 0 {
+                        self.viol("C04", "undo-does-not-restore(long-game)", item, &[], d.clone());
+                    }
+                    // C12: the rights held while unwinding a game are the ones held on the way in
+                    if self.cfg.flags & F12 != 0 && now.rights != snaps[k].rights {
+                        self.viol("C12", "rights-differ-after-unwinding(long-game)", item, &[], d.clone());
+                    }
+                    // C16: so are the two clocks
+                    if self.cfg.flags & F16 != 0 && (now.half != snaps[k].half || now.full != snaps[k].full) {
+                        self.viol("C16", "clocks-differ-after-unwinding(long-game)", item, &[], d.clone());
+                    }
                     return;
                 }
             }
+        }
+    }
+
+    /// C04 runs other properties' queries only to see that they leave the board alone; when one
+    /// of them panics (reported by its own property's check) the board is put back from a copy
+    /// taken before the queries and the walk continues. Bounded: a new generator costs ~100 ms.
+    fn recover_after_query_panic(&self, l: &mut Local, board: &mut Board, backup: &Option<Board>) -> bool {
+        let used = l.n.c.get("query_panics_recovered").copied().unwrap_or(0);
+        match backup {
+            Some(b) if used < 40 => {
+                *board = b.clone();
+                l.ga = MoveGenerator::new();
+                l.n.add("query_panics_recovered", 1);
+                true
+            }
+            _ => false,
         }
     }
 
@@ -393,7 +433,9 @@ impl<'a> Walker<'a> {
         let ck = canon(pos);
         let implkey = board.current_position_hash();
         l.n.visits += 1;
-        if self.cfg.dedup {
+        // trees at the end of pre-rolled long games are about the HISTORY the board carries: they are
+        // never merged with (or into) states reached by another route
+        if self.cfg.dedup && item.prefix.len() <= 64 {
             let sh = &self.visited[shard_of(&ck)];
             let prior = {
                 let mut g = sh.lock().unwrap();
@@ -627,6 +669,7 @@ impl<'a> Walker<'a> {
         let succs: Vec<Pos> = legal.iter().map(|m| pos.make(m)).collect();
         let effs: Vec<ChessMoveEffect> = if need_eff { succs.iter().map(effect_of).collect() } else { Vec::new() };
 
+        let qbackup: Option<Board> = if on(F04) && (on(F06) || on(F13)) { Some(board.clone()) } else { None };
         if on(F06) {
             for side in [Side::White, Side::Black] {
                 let want = pos.in_check(side);
@@ -672,7 +715,12 @@ impl<'a> Walker<'a> {
                         self.viol("C06", "game-ending-verdict", item, path, format!("engine says {}, rules say {}; position {}", gs, want, pos.to_fen()));
                     }
                 }
-                Err(p) => self.viol("C06", "panic-in-game_ending", item, path, p),
+                Err(p) => {
+                    self.viol("C06", "panic-in-game_ending", item, path, p);
+                    if on(F04) && !self.recover_after_query_panic(l, board, &qbackup) {
+                        return Err(());
+                    }
+                }
             }
             match guarded(|| l.ga.generate_moves_and_lazily_update_chess_move_effects(board, turn)) {
                 Ok(am) => {
@@ -696,7 +744,10 @@ impl<'a> Walker<'a> {
                 }
                 Err(p) => {
                     self.viol("C06", "panic-in-annotated-generation", item, path, p);
-                    return Err(());
+                    // a C04 run goes on to its own apply / undo comparisons below this node
+                    if !(on(F04) && self.recover_after_query_panic(l, board, &qbackup)) {
+                        return Err(());
+                    }
                 }
             }
             if on(F04) {
@@ -743,7 +794,9 @@ impl<'a> Walker<'a> {
                 }
                 Err(p) => {
                     self.viol("C13", "panic-in-notation", item, path, p);
-                    return Err(());
+                    if !(on(F04) && self.recover_after_query_panic(l, board, &qbackup)) {
+                        return Err(());
+                    }
                 }
             }
             if on(F04) {
@@ -1221,7 +1274,17 @@ pub const DEEP_SEEDS: &[(&str, &str)] = &[
 /// small half-move clock: both sides shuffle their king's knight, and push a rook pawn one
 /// square whenever the clock passes 80 (C04: nesting depths around the 255 / 256 boundary).
 pub fn preroll_game(n: usize) -> Vec<Move> {
-    let mut p = Pos::startpos();
+    preroll_game_from(&Pos::startpos(), n)
+}
+
+/// Root for long games that end one ply before an en-passant capture becomes available to either
+/// side (white pawn e5 beside d7/f7, black pawn d4 beside c2/e2... all castling rights, knights
+/// on their home squares for the shuffle).
+pub const LONG_GAME_EP_ROOT: &str = "rnbqkbnr/pppp1ppp/8/4P3/3p4/8/PPPP1PPP/RNBQKBNR w KQkq - 0 1";
+
+/// same shuffle from any root that has the king's knights at home and the rook/knight pawns unmoved
+pub fn preroll_game_from(root: &Pos, n: usize) -> Vec<Move> {
+    let mut p = root.clone();
     let mut out = Vec::new();
     let resets = ["a2a3", "a7a6", "h2h3", "h7h6", "a3a4", "a6a5", "h3h4", "h6h5", "b2b3", "b7b6", "g2g3", "g7g6"];
     let mut next_reset = 0;
